@@ -69,8 +69,13 @@ Qed.
 Lemma sphere_is_ellipsoid (S : einput T P) r : make_sphere O tceil S r = make_ellipsoid O tceil S r r r.
 Proof. reflexivity. Qed.
 
-Lemma ellipsoid_defaults (S : einput T P) a : make_ellipsoid_opt O tceil S a None None = make_ellipsoid O tceil S a a a.
-Proof. reflexivity. Qed.
+(* the default-argument forms, with the defaults carried from the source: c omitted means c = a (NOT b) *)
+Lemma ellipsoid_defaults (S : einput T P) a :
+  make_ellipsoid_opt O tceil S a None None = make_ellipsoid O tceil S a a a /\
+  (forall b, make_ellipsoid_opt O tceil S a (Some b) None = make_ellipsoid O tceil S a b a) /\
+  (forall c, make_ellipsoid_opt O tceil S a None (Some c) = make_ellipsoid O tceil S a a c) /\
+  (forall b c, make_ellipsoid_opt O tceil S a (Some b) (Some c) = make_ellipsoid O tceil S a b c).
+Proof. repeat split; reflexivity. Qed.
 End AnyT.
 
 (* ---------------- real-number facts ---------------- *)
@@ -194,6 +199,57 @@ Proof.
   destruct (shift_range m t0 _ Hm P0 U0). destruct (shift_range m t1 _ Hm P1 U1). destruct (shift_range m t2 _ Hm P2 U2).
   apply Hall; [|exact Hle]. rewrite Hat. apply in_flat_map. exists p. split; [exact Hp|].
   rewrite site_is_image by lia. unfold images. apply in_map. apply ijk_in. lia.
+Qed.
+
+(* ---------------- exactly the sites inside the ellipsoid and the returned cell ---------------- *)
+Lemma shift_range_conv (m t : Z) x : (1 <= m)%Z -> in_unit x -> (0 <= t < m)%Z -> in_unit ((x + IZR t) / IZR m).
+Proof.
+  intros Hm [Hx0 Hx1] [Ht0 Ht1]. assert (Hmr : 0 < IZR m) by (apply IZR_lt; lia).
+  assert (0 <= IZR t) by (apply IZR_le; lia). assert (IZR t <= IZR m - 1) by (rewrite <- minus_IZR; apply IZR_le; lia).
+  split.
+  - unfold Rdiv. apply Rmult_le_pos; [lra | left; apply Rinv_0_lt_compat; exact Hmr].
+  - apply (Rmult_lt_reg_r (IZR m)); [exact Hmr|]. unfold Rdiv. rewrite Rmult_assoc, Rinv_l by lra. lra.
+Qed.
+
+Lemma unit_int_diff x y (d : Z) : in_unit x -> in_unit y -> x - y = IZR d -> d = 0%Z.
+Proof.
+  intros [A B] [A' B'] E. assert (IZR (-1) < IZR d) by (rewrite <- E; simpl; lra). assert (IZR d < IZR 1) by (rewrite <- E; simpl; lra).
+  apply lt_IZR in H, H0. lia.
+Qed.
+
+Lemma exact_in_cell (S : einput R P) a b c S' : make_ellipsoid ROps Rceil S a b c = EOk S' ->
+  let sabc := GV a b c in let m := block_size ROps Rceil sabc (e_recbase S) in let B := scaled_base ROps m (e_base S) in
+  Forall (fun p => in_unit3 (at_xyz p)) (s_atoms (e_S S)) ->
+  exists ctr, In ctr (s_atoms S') /\
+    (forall x, In x (s_atoms S') -> exists p t0 t1 t2, In p (s_atoms (e_S S)) /\ x = site m p t0 t1 t2) /\
+    (forall p t0 t1 t2, In p (s_atoms (e_S S)) ->
+       (In (site m p t0 t1 t2) (s_atoms S') <->
+        in_unit3 (at_xyz (site m p t0 t1 t2)) /\ c18_crit ROps (cart ROps B (site m p t0 t1 t2)) (cart ROps B ctr) sabc <= 1)).
+Proof.
+  intros E. cbv zeta. intros Hin. destruct (ellipsoid_result S a b c S' E) as [newS [ctr [Hm [_ [Hat [_ [Hc [_ [Hsound Hall]]]]]]]]].
+  cbv zeta in *. set (m := block_size ROps Rceil (GV a b c) (e_recbase S)) in *.
+  assert (Hblock : forall x, In x (s_atoms newS) -> exists q i j k, In q (s_atoms (e_S S)) /\ (i < Z.to_nat m /\ j < Z.to_nat m /\ k < Z.to_nat m)%nat /\
+                     x = site m q (Z.of_nat i) (Z.of_nat j) (Z.of_nat k)).
+  { intros x Hx. rewrite Hat in Hx. apply in_flat_map in Hx. destruct Hx as [q [Hq Hx]]. unfold images in Hx. apply in_map_iff in Hx.
+    destruct Hx as [[[i j] k] [Ex Ht]]. apply ijk_in in Ht. exists q, i, j, k. split; [exact Hq|]. split; [exact Ht|].
+    rewrite site_is_image by lia. rewrite !Nat2Z.id. symmetry. exact Ex. }
+  rewrite Forall_forall in Hin.
+  exists ctr. split; [exact Hc|]. split.
+  - intros x Hx. destruct (Hsound x Hx) as [Hx' _]. destruct (Hblock x Hx') as [q [i [j [k [Hq [_ Ex]]]]]]. exists q, (Z.of_nat i), (Z.of_nat j), (Z.of_nat k). split; assumption.
+  - intros p t0 t1 t2 Hp. destruct (Hin p Hp) as [P0 [P1 P2]]. split.
+    + intros Hs. destruct (Hsound _ Hs) as [Hn Hle]. split; [|exact Hle].
+      destruct (Hblock _ Hn) as [q [i [j [k [Hq [[Hi [Hj Hk]] Ex]]]]]]. destruct (Hin q Hq) as [Q0 [Q1 Q2]].
+      assert (Hmr : IZR m <> 0) by (apply not_0_IZR; lia).
+      unfold site in Ex. inversion Ex as [[E0 E1 E2 Epay]]. unfold Rdiv in E0, E1, E2.
+      apply Rmult_eq_reg_r in E0, E1, E2; try (apply Rinv_neq_0_compat; exact Hmr).
+      assert (D0 : (Z.of_nat i - t0 = 0)%Z) by (apply (unit_int_diff (x0 (at_xyz p)) (x0 (at_xyz q))); [assumption | assumption | rewrite minus_IZR; lra]).
+      assert (D1 : (Z.of_nat j - t1 = 0)%Z) by (apply (unit_int_diff (x1 (at_xyz p)) (x1 (at_xyz q))); [assumption | assumption | rewrite minus_IZR; lra]).
+      assert (D2 : (Z.of_nat k - t2 = 0)%Z) by (apply (unit_int_diff (x2 (at_xyz p)) (x2 (at_xyz q))); [assumption | assumption | rewrite minus_IZR; lra]).
+      cbn [site at_xyz x0 x1 x2]. repeat split; apply shift_range_conv; try assumption; lia.
+    + intros [[U0 [U1 U2]] Hle]. cbn [site at_xyz x0 x1 x2] in U0, U1, U2.
+      destruct (shift_range m t0 _ Hm P0 U0). destruct (shift_range m t1 _ Hm P1 U1). destruct (shift_range m t2 _ Hm P2 U2).
+      apply Hall; [|exact Hle]. rewrite Hat. apply in_flat_map. exists p. split; [exact Hp|].
+      rewrite site_is_image by lia. unfold images. apply in_map. apply ijk_in. lia.
 Qed.
 
 (* ---------------- no site listed twice ---------------- *)
